@@ -312,49 +312,59 @@ def backward_checks(rep, fnd, pid, tier):
         for pname, x0 in points:
             x = torch.tensor(x0, requires_grad=True)
             z = lay(x)
-            c = torch.tensor(rng.standard_normal(tuple(z.shape)))
-            g, = torch.autograd.grad((z * c).sum(), x)
-            cfg = dict(layer=name, point=pname, shape=list(shape))
-            case = {"api": name, "check": "scat_backward", "cfg": cfg}
-            rep.validated()
-            rep.nontriv(("scat_bwd", name, pname))
-            if not bool(torch.isfinite(g).all()):
-                rep.violation("%s: gradient at the %s is not finite (magbias > 0)" % (name, pname), case)
-                continue
+            dense = torch.tensor(rng.standard_normal(tuple(z.shape)))
+            cots = [("dense", dense)]
+            if pname == "generic":
+                # structured cotangents: a loss on the lowpass channels only, on one magnitude channel only, on one lowpass sample at
+                # the image corner - a backward that special-cases "this part of the cotangent is zero" takes another path there
+                nlow = 3 if "colour=True" in name else shape[1]
+                lo = torch.zeros_like(dense); lo[:, :nlow] = dense[:, :nlow]
+                hi = torch.zeros_like(dense); hi[:, -1] = dense[:, -1]
+                hot = torch.zeros_like(dense); hot[:, 0, 0, 0] = 1.0; hot[:, nlow - 1, -1, -1] = -2.0
+                cots += [("lowpass channels only", lo), ("last magnitude channel only", hi), ("lowpass corner samples only", hot)]
+            for cname, c in cots:
+                g, = torch.autograd.grad((z * c).sum(), x, retain_graph=True)
+                cfg = dict(layer=name, point=pname, shape=list(shape), cotangent=cname)
+                case = {"api": name, "check": "scat_backward", "cfg": cfg}
+                rep.validated()
+                rep.nontriv(("scat_bwd", name, pname, cname))
+                if not bool(torch.isfinite(g).all()):
+                    rep.violation("%s: gradient at the %s is not finite (magbias > 0)" % (name, pname), case)
+                    continue
 
-            def f(xx):
-                with torch.no_grad():
-                    return float((lay(torch.tensor(xx)) * c).sum())
-            scale = max(np.abs(x0).max(), 1e-2)
-            ok = True
-            dirs = [rng.standard_normal(shape) for _ in range(3 if tier == "quick" else 6)]
-            e = np.zeros(shape)
-            e.flat[int(rng.integers(0, e.size))] = 1.0
-            dirs.append(e)
-            if pname == "tiny":
-                # sqrt(z^2 + b^2) - b cancels catastrophically for |z| << b in the FORWARD pass, so finite differences
-                # carry no information there; the requirement at such points is a finite gradient (checked above)
-                n_ok += 1
-                continue
-            for d in dirs:
-                eps = 1e-5 * scale
-                if pname == "zero image":
-                    eps = 1e-6          # |x| << bias: the function is smooth (quadratic) around zero
-                fd1 = fd_check(f, x0, d, eps)
-                fd2 = fd_check(f, x0, d, eps / 2)
-                fd = (4 * fd2 - fd1) / 3          # Richardson: removes the eps^2 truncation term of the central difference
-                an = float((g.numpy() * d).sum())
-                # |fd2 - fd1| measures the truncation error actually present at this point (the smooth modulus has
-                # curvature ~ 1/bias where |z| ~ bias): it widens the tolerance there instead of raising a false alarm
-                tol = 1e-5 * (abs(fd) + abs(an)) + 0.5 * abs(fd2 - fd1) + 1e-7 * float(c.abs().sum()) * (eps ** 2 * 1e4 + 1e-9 * scale)
-                if not (abs(fd - an) <= tol):
-                    ok = False
-                    rep.violation("%s: back-propagated directional derivative %.10g differs from the central finite difference %.10g at the %s"
-                                  % (name, an, fd, pname), dict(case, analytic=an, finite_difference=fd))
-                    break
-            n_ok += ok
-            if ok:
-                rep.sample({"layer": name, "point": pname, "shape": list(shape), "directional_derivative_autograd": an, "finite_difference": fd}, cap=4)
+                def f(xx):
+                    with torch.no_grad():
+                        return float((lay(torch.tensor(xx)) * c).sum())
+                scale = max(np.abs(x0).max(), 1e-2)
+                ok = True
+                dirs = [rng.standard_normal(shape) for _ in range(3 if tier == "quick" else 6)]
+                e = np.zeros(shape)
+                e.flat[int(rng.integers(0, e.size))] = 1.0
+                dirs.append(e)
+                if pname == "tiny":
+                    # sqrt(z^2 + b^2) - b cancels catastrophically for |z| << b in the FORWARD pass, so finite differences
+                    # carry no information there; the requirement at such points is a finite gradient (checked above)
+                    n_ok += 1
+                    continue
+                for d in dirs:
+                    eps = 1e-5 * scale
+                    if pname == "zero image":
+                        eps = 1e-6          # |x| << bias: the function is smooth (quadratic) around zero
+                    fd1 = fd_check(f, x0, d, eps)
+                    fd2 = fd_check(f, x0, d, eps / 2)
+                    fd = (4 * fd2 - fd1) / 3          # Richardson: removes the eps^2 truncation term of the central difference
+                    an = float((g.numpy() * d).sum())
+                    # |fd2 - fd1| measures the truncation error actually present at this point (the smooth modulus has
+                    # curvature ~ 1/bias where |z| ~ bias): it widens the tolerance there instead of raising a false alarm
+                    tol = 1e-5 * (abs(fd) + abs(an)) + 0.5 * abs(fd2 - fd1) + 1e-7 * float(c.abs().sum()) * (eps ** 2 * 1e4 + 1e-9 * scale)
+                    if not (abs(fd - an) <= tol):
+                        ok = False
+                        rep.violation("%s: back-propagated directional derivative %.10g differs from the central finite difference %.10g at the %s"
+                                      % (name, an, fd, pname), dict(case, analytic=an, finite_difference=fd))
+                        break
+                n_ok += ok
+                if ok:
+                    rep.sample({"layer": name, "point": pname, "shape": list(shape), "directional_derivative_autograd": an, "finite_difference": fd}, cap=4)
     # ---- the stand-alone smooth magnitude function, every grad subset
     from pytorch_wavelets.scatternet.lowlevel import SmoothMagFn
     for need in ((True, True), (True, False), (False, True)):
@@ -444,3 +454,75 @@ def _ng(lay, x):
 def _im(lay, x):
     with torch.inference_mode():
         return lay(x).clone()
+
+
+def big_forward(rep, pid, tier):
+    """Both layers, both filter families, on inputs beyond every size threshold (census.thresholds(): the default ladder up to
+    2^22 elements plus every constant found in the library's source), with and without a recorded graph: the values are the
+    reference composition's, channel by channel.  A code path that exists only for big inputs (band-wise / chunked
+    processing "to save memory", often only when no graph is recorded) is met here and nowhere in the small-size layers."""
+    from . import census
+    torch.set_default_dtype(torch.float64)
+    rng = np.random.default_rng(44000 + seed())
+    T = max(census.thresholds())
+    rep.extra["census_thresholds"] = census.thresholds()
+    kinds = [("ScatLayerj2", "near_sym_b_bp", "qshift_b_bp", False), ("ScatLayerj2", "near_sym_a", "qshift_a", False),
+             ("ScatLayer", "near_sym_b_bp", "qshift_b_bp", False), ("ScatLayer", "near_sym_a", "qshift_a", True)]
+    if tier != "quick":
+        kinds += [("ScatLayerj2", "near_sym_b_bp", "qshift_b_bp", True), ("ScatLayerj2", "near_sym_b", "qshift_b", True),
+                  ("ScatLayer", "near_sym_b_bp", "qshift_b_bp", True), ("ScatLayer", "near_sym_b", "qshift_b", False)]
+    n_ok = 0
+    for k, (layer, biort, qshift, colour) in enumerate(kinds):
+        C = 3 if colour else (1 if k % 2 else 2)
+        N = 2
+        # few big images (k even) or many small ones (k odd): N*C*H*W just beyond the largest threshold either way
+        if k % 2 == 0:
+            H = 512
+            W = int(np.ceil((T + 1) / (N * C * H) / 8)) * 8
+        else:
+            H, W = 32, 24
+            N = int(np.ceil((T + 1) / (C * H * W)))
+        b = [1e-2, 0.0, 1e-3, 1.0][k % 4]
+        lay = pw.ScatLayer(biort=biort, magbias=b, combine_colour=colour) if layer == "ScatLayer" else \
+            pw.ScatLayerj2(biort=biort, qshift=qshift, magbias=b, combine_colour=colour)
+        x = rng.standard_normal((N, C, H, W))
+        cfg = dict(layer=layer, biort=biort, qshift=qshift, combine_colour=colour, shape=[N, C, H, W], magbias=b, elements=int(N * C * H * W))
+        case = {"api": layer, "check": "scat_big_forward", "cfg": cfg}
+        outs = {}
+        try:
+            with torch.no_grad():
+                outs["no_grad"] = lay(torch.tensor(x)).numpy()
+            outs["requires_grad"] = lay(torch.tensor(x, requires_grad=True)).detach().numpy()
+        except Exception as e:   # noqa
+            rep.violation("%s raised %r on a large input at %s" % (layer, e, cfg), dict(case, observed=repr(e)))
+            continue
+        items = sorted({0, N - 1}) if N <= 4 else sorted({0, N // 3, N - 1})
+        ok = True
+        for n in items:
+            if layer == "ScatLayer":
+                want = ref_scat1(x[n], biort, b, colour)
+            elif colour:
+                want = None          # (the colour form of the second-order layer has no per-channel reference here: modes only)
+            else:
+                want = ref_scat2(x[n], biort, qshift, b)
+            for mode, z in outs.items():
+                rep.validated()
+                rep.nontriv(("scat_big", layer, biort, colour, mode, n))
+                if want is None:
+                    continue
+                scale = np.abs(x).max() * 8 + b
+                if z[n].shape != want.shape or not (np.abs(z[n] - want).max() <= 1e-9 * scale):
+                    ok = False
+                    bad = int(np.abs(z[n] - want).reshape(want.shape[0], -1).max(1).argmax()) if z[n].shape == want.shape else -1
+                    rep.violation("%s (%s) on a LARGE input (%d elements): item %d differs from the reference composition (worst output "
+                                  "channel %d, max error %.3g) at %s" % (layer, mode, cfg["elements"], n, bad,
+                                                                         np.abs(z[n] - want).max() if z[n].shape == want.shape else float("nan"), cfg), dict(case, mode=mode))
+                    break
+            if not ok:
+                break
+        if ok and not (np.abs(outs["no_grad"] - outs["requires_grad"]).max() <= 1e-12 * (np.abs(x).max() * 8 + b)):
+            ok = False
+            rep.violation("%s on a LARGE input (%d elements): the values under torch.no_grad() differ from the values with a recorded graph "
+                          "(max %.3g) at %s" % (layer, cfg["elements"], np.abs(outs["no_grad"] - outs["requires_grad"]).max(), cfg), case)
+        n_ok += ok
+    rep.count("scat_big_forward_ok", n_ok)
